@@ -26,7 +26,7 @@ func init() {
 		Explain: "Decides structural necessary conditions of the laws: (V) in URLEscape every loop cycle that leaves bytes in place (the copy mark does not move) advances by a constant number of bytes, and each of those bytes has been tested on that path by predicates that — evaluated here for all 256 byte values from the source's own tables and predicate bodies — admit only unreserved ASCII, '%' followed by two hex digits, or bytes that cannot start a UTF-8 sequence; every other cycle moves the copy mark and writes only the pending verbatim range, constant escapes or url.QueryEscape output: so the output has no space, control, quote or angle byte, every kept '%' is a valid triple, and valid UTF-8 comes out as ASCII; (X) Extend/ExtendString store only exclusively owned bucket slices into the derived filter, and Add appends only to a bucket of its own receiver; (T) the pass-through table, the UTF-8 length table and the HTML escape table have exactly the required classes and are never written; (R) every code point decoded from a numeric reference passes the validator (0 and invalid code points become U+FFFD) before it is encoded; (W,B) no util function writes into its argument (= C12-W/B); (E) EscapeHTML replaces every byte that has a table entry (= C03-E). Not decided: idempotence of URLEscape, decoding back to the input, UTF-8 validity of resolver output in general, case folding and whitespace collapsing, set semantics of BytesFilter beyond aliasing.",
 		Trusted: []string{"url.QueryEscape emits only unreserved ASCII, '+' and %XX", "utf8.ValidRune"},
 		Assumes: []string{"none beyond Go semantics"},
-		Rules: []func(*World, *Report){ruleVerbatimBytesSafe, ruleFilterNoAliasing, ruleFilterDerivationComplete, ruleMembershipByBytes, ruleWideGuards, ruleLabelNormalisation, ruleCaseFoldingTable, ruleUtilTables, ruleEscapeTable, ruleValidRune,
+		Rules: []func(*World, *Report){ruleVerbatimBytesSafe, ruleFilterNoAliasing, ruleFilterDerivationComplete, ruleMembershipByBytes, ruleFoldingLooksEveryRuneUp, ruleWideGuards, ruleLabelNormalisation, ruleCaseFoldingTable, ruleUtilTables, ruleEscapeTable, ruleValidRune,
 			ruleByteWriteSites, ruleCopyOnWrite, ruleSanitiserLoops},
 	})
 }
@@ -176,6 +176,16 @@ func (e *byteEnv) eval(v ssa.Value) (int64, bool) {
 		}
 	case *ssa.Call:
 		cal := x.Common().StaticCallee()
+		if cal != nil && cal.String() == "unicode/utf8.RuneStart" && len(x.Common().Args) == 1 {
+			a, ok := e.eval(x.Common().Args[0])
+			if !ok {
+				return 0, false
+			}
+			if a&0xC0 != 0x80 {
+				return 1, true
+			}
+			return 0, true
+		}
 		if cal == nil || len(x.Common().Args) != 1 || !e.w.InModule(cal) {
 			return 0, false
 		}
@@ -812,7 +822,7 @@ func ruleValidRune(w *World, r *Report) {
 	isRuneSink := func(c ssa.CallInstruction) (ssa.Value, bool) {
 		com := c.Common()
 		if com.IsInvoke() {
-			if com.Method.Name() == "WriteRune" && len(com.Args) == 1 {
+			if (com.Method.Name() == "WriteRune" || com.Method.Name() == "WriteByte") && len(com.Args) == 1 {
 				return com.Args[0], true
 			}
 			return nil, false
@@ -820,6 +830,9 @@ func ruleValidRune(w *World, r *Report) {
 		cal := com.StaticCallee()
 		if cal == nil {
 			return nil, false
+		}
+		if (cal.Name() == "WriteByte" || cal.Name() == "AppendByte") && cal.Signature.Recv() != nil && len(com.Args) == 2 {
+			return com.Args[1], true // a code point narrowed to a byte and written as such
 		}
 		switch cal.String() {
 		case "unicode/utf8.EncodeRune", "unicode/utf8.AppendRune":
@@ -830,9 +843,14 @@ func ruleValidRune(w *World, r *Report) {
 		return nil, false
 	}
 	parseFns := map[*ssa.Function]bool{} // module helpers that hand back a parsed number (an extracted digit-run reader)
+	taintedParams := map[*ssa.Parameter]bool{} // parameters of module helpers that receive a parsed number at some call site
 	fromParse := func(v ssa.Value) bool {
 		found := false
 		operandsClosure(v, func(x ssa.Value) bool {
+			if p, ok := x.(*ssa.Parameter); ok && taintedParams[p] {
+				found = true
+				return false
+			}
 			if c, ok := x.(*ssa.Call); ok {
 				cal := c.Common().StaticCallee()
 				if cal != nil && (strings.HasPrefix(cal.String(), "strconv.Parse") || cal.String() == "strconv.Atoi" || parseFns[cal]) {
@@ -854,6 +872,32 @@ func ruleValidRune(w *World, r *Report) {
 					for _, res := range rt.Results {
 						if isInteger(res.Type()) && fromParse(res) {
 							parseFns[fn] = true
+						}
+					}
+				}
+			}
+		}
+	}
+	// parsed numbers handed to module helpers (an extracted "write this code point" helper): the obligation follows
+	// the value into the helper's body
+	for round := 0; round < 3; round++ {
+		for _, fn := range w.Funcs {
+			for _, b := range fn.Blocks {
+				for _, ins := range b.Instrs {
+					c, ok := ins.(ssa.CallInstruction)
+					if !ok {
+						continue
+					}
+					cal := c.Common().StaticCallee()
+					if cal == nil || !w.InModule(cal) || cal == valid || cal.Blocks == nil {
+						continue
+					}
+					for i, a := range c.Common().Args {
+						if i < len(cal.Params) && isInteger(a.Type()) && fromParse(a) {
+							if vc, isCall := stripConv(a).(*ssa.Call); isCall && vc.Common().StaticCallee() == valid {
+								continue // already validated
+							}
+							taintedParams[cal.Params[i]] = true
 						}
 					}
 				}
@@ -895,6 +939,11 @@ func ruleValidRune(w *World, r *Report) {
 				}
 				if arg == nil || !fromParse(arg) {
 					continue
+				}
+				if pi, isSink := runeParamSinks[fn]; isSink {
+					if p, isP := stripConv(arg).(*ssa.Parameter); isP && paramIndex(fn, p) == pi && !taintedParams[p] {
+						continue
+					}
 				}
 				n++
 				key := fmt.Sprintf("%s: decoded code point #%d", w.FnKey(fn), n)
